@@ -18,7 +18,7 @@ RULE = ('each trajectory set x every applicable container form {list of ints, li
         'deterministic (cyclic) models, where the chain is known without assumptions on the generator. Non-trivial = >=2 '
         'representations compared; distinct by (set, function, relabelling).')
 RELATION = 'every representation of the same trajectories gives canon(real) = Lean model output; relabelled input gives the relabelled model output'
-SUB = {'estimate': c01, 'coring': c05, 'md_wt': c06, 'md_paths': c06}
+SUB = {'estimate': c01, 'coring': c05, 'md_wt': c06, 'md_paths': c06, 'compare': c13}
 
 
 def _applicable_forms(trajs):
@@ -44,6 +44,17 @@ def cases(tier, rng, boost=1):
     for trajs, form, tag in gen.special_sets(core.Rng(17)):
         if form in ('per_array_narrow', 'narrow_arrays'):
             yield dict(c01._mk(trajs, 1, form=form, src='corpus', cls=tag), fn='estimate', relabel=None, forms=[form, 'list_of_arrays', 'list_of_lists'])
+    # similarity with NARROW integer arrays and many state pairs (3 x 100 and 12 x 40 > 127, > 32767 / 100): index arithmetic carried out in the arrays' own
+    # dtype would wrap; every representation must give the one model value
+    srng = core.Rng(29)
+    for n1_, n2_, N_ in ((3, 100, 600), (12, 40, 900), (2, 90, 400)):
+        f1 = list(range(n1_)) + [srng.randrange(n1_) for _ in range(N_)]
+        f2 = (list(range(n2_)) * (1 + len(f1) // n2_))[:len(f1)]
+        srng.shuffle(f2)
+        for m_ in (0, 1):
+            yield dict(c13._mk([f1], [f2], m_, threads=3, src='corpus'), fn='compare', relabel=None, forms=['narrow_arrays', 'list_of_arrays', 'list_of_lists'])
+            yield dict(c13._mk([[x + 1 for x in f2]], [[x + 1 for x in f1]], m_, threads=3, src='corpus'), fn='compare', relabel=None,
+                       forms=['narrow_arrays', 'per_array_narrow', 'list_of_arrays'])
     # sampling functions on DETERMINISTIC models (cyclic trajectories: every row of T is a unit vector), so the chain is known without
     # any assumption on the generator: raw containers and a constructed object must give the same, correct chain — also when other data
     # of the same lag time were analysed just before in the same process
@@ -65,7 +76,7 @@ def cases(tier, rng, boost=1):
         idx = [gen.random_traj(rng, ns, L if same_len else rng.randint(1, 25), 0.6) for _ in range(rng.choice([1, 1, 2, 3]))]
         trajs = gen.relabel(idx, labs)
         occ = sorted({x for t in trajs for x in t})
-        fn = rng.choice(['estimate', 'estimate', 'coring', 'md_wt', 'md_paths'])
+        fn = rng.choice(['estimate', 'estimate', 'coring', 'md_wt', 'md_paths', 'compare'])
         rel = rng.choice([None, None, 'shift', 'monotone', 'bijective'])
         if rel == 'shift':
             k = rng.choice([-2, -1, 5, 100, -min(occ) - 1])
@@ -80,7 +91,12 @@ def cases(tier, rng, boost=1):
             fmap = None
         tr = trajs if fmap is None else [[fmap[x] for x in t] for t in trajs]
         occ2 = sorted({x for t in tr for x in t})
-        if fn == 'estimate':
+        if fn == 'compare':
+            other = [[(x * 5 + i) % 4 for i, x in enumerate(t)] for t in idx]          # a second labeling of the same frames
+            if len(occ2) < 2 or len({x for t in other for x in t}) < 2:
+                continue
+            c = c13._mk(tr, other, rng.choice([0, 1]), threads=3)
+        elif fn == 'estimate':
             c = c01._mk(tr, rng.choice([1, 2, 3]), cls=cls)
         elif fn == 'coring':
             c = c05._mk(tr, rng.randint(1, 4), rng.random() < 0.6)
